@@ -24,6 +24,9 @@ type auditC15yF1Server struct {
 	ready     chan struct{} // handler has sent its first response
 	cancelled chan error    // handler's ctx.Err() once the context is done
 	release   chan struct{} // closed by the test to let the handler go
+	// waitInReceive makes the handler wait for the next request message (as an
+	// echo-style handler does) rather than watch its context.
+	waitInReceive bool
 }
 
 func (s *auditC15yF1Server) CumSum(
@@ -37,6 +40,10 @@ func (s *auditC15yF1Server) CumSum(
 		return err
 	}
 	close(s.ready)
+	if s.waitInReceive {
+		_, err := stream.Receive()
+		return err
+	}
 	select {
 	case <-ctx.Done():
 		s.cancelled <- ctx.Err()
@@ -60,7 +67,7 @@ func TestAuditC15yFinding1(t *testing.T) {
 	// "control_request_closed" is the same as "blocked_receive", except that the
 	// client has closed its request side first: there, cancellation works, which
 	// shows that the harness can observe it. It passes.
-	for _, instant := range []string{"control_request_closed", "between_ops", "blocked_receive", "blocked_send"} {
+	for _, instant := range []string{"control_request_closed", "between_ops", "between_ops_then_close_response", "blocked_receive", "blocked_send"} {
 		for protocol, opts := range protocols {
 			instant, opts := instant, opts
 			t.Run(instant+"/"+protocol, func(t *testing.T) {
@@ -125,7 +132,19 @@ func TestAuditC15yFinding1(t *testing.T) {
 
 				cancel() // the call's context is cancelled here
 
-				if instant != "between_ops" {
+				if instant == "between_ops_then_close_response" {
+					// The natural clean-up after giving up on a stream.
+					go func() { blocked <- stream.CloseResponse() }()
+					select {
+					case err := <-blocked:
+						if err != nil && connect.CodeOf(err) != connect.CodeCanceled {
+							t.Errorf("C15 expects CloseResponse after cancellation to succeed or fail with code canceled; observed %v", err)
+						}
+					case <-time.After(patience):
+						t.Errorf("C15 expects CloseResponse, called after the call's context was cancelled, to return (nil or code canceled); "+
+							"observed: still blocked %v after cancel()", patience)
+					}
+				} else if instant != "between_ops" {
 					select {
 					case err := <-blocked:
 						code := connect.CodeOf(err)
@@ -148,5 +167,57 @@ func TestAuditC15yFinding1(t *testing.T) {
 				}
 			})
 		}
+	}
+
+	// The same state, with a deadline instead of a cancellation, and a handler
+	// that waits for the next request message (an echo-style handler): the
+	// client's blocked Receive isn't interrupted when the deadline passes.
+	for protocol, opts := range protocols {
+		opts := opts
+		t.Run("blocked_receive_deadline/"+protocol, func(t *testing.T) {
+			srv := &auditC15yF1Server{
+				ready:         make(chan struct{}),
+				cancelled:     make(chan error, 1),
+				release:       make(chan struct{}),
+				waitInReceive: true,
+			}
+			mux := http.NewServeMux()
+			mux.Handle(pingv1connect.NewPingServiceHandler(srv))
+			server := httptest.NewUnstartedServer(mux)
+			server.EnableHTTP2 = true
+			server.StartTLS()
+			defer server.Close()
+			defer server.CloseClientConnections()
+
+			client := connect.NewClient[pingv1.PingRequest, pingv1.CumSumResponse](
+				server.Client(),
+				server.URL+"/connect.ping.v1.PingService/CumSum",
+				opts...,
+			)
+			const timeout = 500 * time.Millisecond
+			ctx, cancel := context.WithTimeout(context.Background(), timeout)
+			defer cancel()
+			stream := client.CallBidiStream(ctx)
+			if err := stream.Send(&pingv1.PingRequest{Number: 1}); err != nil {
+				t.Fatalf("setup: first Send: %v", err)
+			}
+			if _, err := stream.Receive(); err != nil {
+				t.Fatalf("setup: first Receive: %v", err)
+			}
+			blocked := make(chan error, 1)
+			go func() {
+				_, err := stream.Receive()
+				blocked <- err
+			}()
+			select {
+			case err := <-blocked:
+				if code := connect.CodeOf(err); code != connect.CodeDeadlineExceeded {
+					t.Errorf("C15 expects deadline_exceeded, observed %v", err)
+				}
+			case <-time.After(timeout + patience):
+				t.Errorf("C15 expects a Receive that is blocked when the call's deadline passes to fail with code deadline_exceeded; "+
+					"observed: still blocked %v after the deadline", patience)
+			}
+		})
 	}
 }
